@@ -346,7 +346,7 @@ func c19SchedTerm(r c19Run) (string, bool) {
 		coqNatList(r.Sched), coqList(oa), coqList(oc), coqStrList(ks), coqList(fc)), true
 }
 
-var c19Workloads = map[string]int{"readonly": 0, "errors": 1, "mixed": 2, "writers": 3, "pointops": 4}
+var c19Workloads = map[string]int{"readonly": 0, "errors": 1, "mixed": 2, "writers": 3, "pointops": 4, "sametext": 5}
 
 func c19EqStrs(a, b []string) bool {
 	if len(a) != len(b) {
@@ -500,7 +500,7 @@ func runC19(c *runCtx) error {
 		return fmt.Sprintf("cd %s && sed 's#=> /repo#=> %s#' go.mod > /tmp/c19.mod && cp %s/go.sum /tmp/c19.sum && CGO_ENABLED=%s go build %s-modfile=/tmp/c19.mod -o <dir>/%s ./c19race   (the run directory is emptied by the next check)",
 			hdir, repo, repo, cgo, fl, filepath.Base(j0(race)))
 	}
-	all := "readonly,errors,mixed,writers,pointops"
+	all := "readonly,errors,mixed,sametext,writers,pointops"
 	var jobs []job
 	plainSeeds, plainRuns, raceSeeds, raceRuns := 4, 8, 4, 3
 	if c.thorough() {
